@@ -1185,6 +1185,12 @@ def parse_units():
         fn("is_valid_stream", "r", ensures=["r == valid_stream::<T>(input@)"],
            subst=[{"find": "syn::parse2::<T>(input)", "replace": "parse2::<T>(input)", "why": "path to the prelude's external `parse2`"}]),
     ]))
+    # `Empty` (the operand type of operand-less operators) parses exactly the empty stream
+    u.append(fns("join_impl/src/parse/empty.rs", [fn("parse", "r", label="Empty::parse", ensures=["(r is Ok) == input.is_empty_spec()"],
+                                                    subst=[{"find": "input: ParseStream)", "replace": "input: ParseStream<'_>)", "why": "elided lifetime of the type alias written out", "sig": True},
+                                                           {"find": "input.is_empty()", "replace": "input.is_empty_now()", "why": "A13: this function consumes nothing, so emptiness is a pure function of the stream here"}])],
+                 self_ty="Empty", trait="Parse", header="impl Empty"))
+    u.append(fns(F_UTILS, [fn("is_valid_expr", "r", ensures=["r == valid_stream::<Expr>(input@)"])]))
     u.append(fns(F_GD, [
         fn("combinator", "r", ensures=["r == self.comb()"]),
         # C14: an operand is complete iff syn can parse what was collected as a T - nothing cheaper, nothing more
@@ -1427,7 +1433,7 @@ OBLIGATIONS = {
             ("gen", "JoinOutput::wrap_last_step_stream"), ("gen", "JoinOutput::process_step_action_expr"),
             ("gen", "JoinOutput::generate_def_and_step_streams"), ("gen", "JoinOutput::expand_process_expr"),
             ("core", "ProcessExpr::to_tokens")],
-    "C14": [("parse", "GroupDeterminer::check_parsed"), ("parse", "is_valid_stream"), ("parse", "GroupDeterminer::combinator"), ("parse", "ParseUntil::scan_step"), ("parse", "parse_until_suffix"), ("det", "lemma_first_match_is_longest"), ("optable", "lemma_operator_tables")],
+    "C14": [("parse", "Empty::parse"), ("parse", "is_valid_expr"), ("parse", "GroupDeterminer::check_parsed"), ("parse", "is_valid_stream"), ("parse", "GroupDeterminer::combinator"), ("parse", "ParseUntil::scan_step"), ("parse", "parse_until_suffix"), ("det", "lemma_first_match_is_longest"), ("optable", "lemma_operator_tables")],
     "C16": [("builder", "JoinInputDefault::parse"), ("top", "join_impl"), ("builder", "JoinInputDefault::parse_option_futures_crate_path"), ("builder", "JoinInputDefault::parse_option_custom_joiner"), ("builder", "JoinInputDefault::parse_option_transpose_results"), ("builder", "JoinInputDefault::parse_option_lazy_branches"), ("builder", "JoinInputDefault::parse_branches"), ("top", "generate_join"), ("top", "jo_into_token_stream"), ("top", "ji_futures_crate_path"), ("top", "ji_branches"), ("top", "ji_handler"), ("top", "ji_joiner"), ("top", "ji_transpose_results_option"), ("top", "ji_lazy_branches_option"), ("top", "JoinOutput::new"), ("gen", "JoinOutput::generate_handle"), ("gen", "JoinOutput::generate_step_branch"), ("steps", "JoinOutput::generate_step_tail"), ("guards", "new_init_lazy_branches"), ("guards", "new_init_transpose")],
     "C17": [("sep", "is_block_expr"), ("sep", "JoinOutput::separate_block_expr_process"), ("sep", "JoinOutput::separate_block_expr_err"), ("sep", "JoinOutput::separate_block_expr_initial"), ("sep", "lemma_sep_step")] + [("names", "lemma_names_never_clash"), ("names", "lemma_names_table"), ("names", "lemma_name3_injective"), ("names", "lemma_name1_injective"), ("names", "lemma_distinguishable"), ("names", "lemma_names_strlits"), ("gen", "JoinOutput::generate_def_and_step_streams")] + [("core", n) for n in ['construct_var_name', 'construct_step_results_name', 'construct_result_name', 'construct_thread_builder_name', 'construct_inspect_fn_name', 'construct_spawn_tokio_fn_name', 'construct_results_name', 'construct_handler_name', 'construct_internal_value_name', 'construct_thread_builder_fn_name', 'construct_expr_wrapper_name']],
     "C20": [("core", n) for n in ['construct_var_name', 'construct_step_results_name', 'construct_result_name', 'construct_thread_builder_name', 'construct_inspect_fn_name', 'construct_spawn_tokio_fn_name', 'construct_results_name', 'construct_handler_name', 'construct_internal_value_name', 'construct_thread_builder_fn_name', 'construct_expr_wrapper_name']],
